@@ -36,7 +36,9 @@ SZ = (1, 2, 3, 4, 5, 6, 8)
 def strategy_case(draw):
     fam = draw(st.sampled_from(["a", "a", "a", "b", "b", "b", "c", "d"]))
     dt = draw(st.sampled_from(gen.DTYPES_ALL))
-    source = draw(st.sampled_from(["torch", "numpy", "numpy", "numpy_view"]))     # numpy_view: a reversed (negative stride) view
+    # numpy_view: a reversed (negative stride) view; numpy_swapped: non-native byte order; torch_grad: a tensor that is
+    # attached to the autograd graph (an ordinary dense tensor of a listed dtype)
+    source = draw(st.sampled_from(["torch", "torch", "numpy", "numpy", "numpy_view", "numpy_swapped", "torch_grad"]))
     case = {"family": fam, "dt": dt, "source": source, "seed": draw(gen.SEED),
             "scale_exp": draw(st.sampled_from([0, 0, 0, -6, -3, 3, 6, -20, 20, -170, 170]))}
     if fam == "c":
@@ -191,6 +193,11 @@ def build_input(case):
     elif case["source"] == "numpy_view":
         # the same array handed over as a view with a negative stride along its first axis (np.flip / a[::-1])
         src = np.ascontiguousarray(src.numpy()[::-1])[::-1] if src.dim() >= 1 and src.shape[0] > 0 else src.numpy()
+    elif case["source"] == "numpy_swapped":
+        a = src.numpy()
+        src = a.astype(a.dtype.newbyteorder(">" if a.dtype.byteorder in ("=", "<", "|") and np.little_endian else "<"))
+    elif case["source"] == "torch_grad":
+        src = src.requires_grad_(True)
     if case.get("target") == "ttm":
         shape = [(int(m), int(n)) for m, n in zip(M, N)]
     elif case.get("target") == "list":
@@ -223,9 +230,9 @@ def execute(case):
     if rmax is not None:
         kw["rmax"] = rmax if not isinstance(rmax, list) else list(rmax)
     rmax_passed = kw.get("rmax")
-    keep = src.copy() if isinstance(src, np.ndarray) else src.clone()
+    keep = src.copy() if isinstance(src, np.ndarray) else src.detach().clone()
     x = lib(lambda: T.TT(src, shape, **kw) if shape is not None else T.TT(src, **kw))
-    same = np.array_equal(keep, src) if isinstance(src, np.ndarray) else torch.equal(keep, src)
+    same = np.array_equal(keep, src) if isinstance(src, np.ndarray) else torch.equal(keep, src.detach())
     ck.require(same, "input_modified", "the constructor modified its dense input")
     if isinstance(rmax_passed, list):
         ck.label("rmax_list")
